@@ -93,15 +93,17 @@ def render_schema_sql(doc, with_tables=True):
             out.append('CREATE TABLE %s (%s);\n' % (c['kind'], ', '.join('%s %s' % (n, t) for n, t in c['attrs'])))
     for a in doc['assocs']:
         s = 'CREATE ROP REF_ID R%d FROM %s %s (%s)' % (a['rel'], card(a['src_many'], a['src_cond']), a['src'],
-                                                       ', '.join(a['src_keys']))
+                                                       ', '.join(a.get('src_keys_as') or a['src_keys']))
         if a['src_phrase']:
             s += " PHRASE '%s'" % a['src_phrase']
-        s += ' TO %s %s (%s)' % (card(a['tgt_many'], a['tgt_cond']), a['tgt'], ', '.join(a['tgt_keys']))
+        s += ' TO %s %s (%s)' % (card(a['tgt_many'], a['tgt_cond']), a['tgt'],
+                                 ', '.join(a.get('tgt_keys_as') or a['tgt_keys']))
         if a['tgt_phrase']:
             s += " PHRASE '%s'" % a['tgt_phrase']
         out.append(s + ';\n')
     for u in doc['uniques']:
-        out.append('CREATE UNIQUE INDEX %s ON %s (%s);\n' % (u['name'], u['kind'], ', '.join(u['attrs'])))
+        out.append('CREATE UNIQUE INDEX %s ON %s (%s);\n' % (u['name'], u['kind'],
+                                                             ', '.join(u.get('attrs_as') or u['attrs'])))
     return ''.join(out)
 
 
@@ -177,13 +179,15 @@ def build_model(xtuml, doc, route, idgen, preload_rows=None):
     assocs = []
     for a in doc['assocs']:
         assocs.append(m.define_association(a['rel'] if route == 'api' else 'R%d' % a['rel'],
-                                           a['src'], list(a['src_keys']), a['src_many'], a['src_cond'],
-                                           a['src_phrase'], a['tgt'], list(a['tgt_keys']), a['tgt_many'],
+                                           a['src'], list(a.get('src_keys_as') or a['src_keys']), a['src_many'],
+                                           a['src_cond'],
+                                           a['src_phrase'], a['tgt'], list(a.get('tgt_keys_as') or a['tgt_keys']),
+                                           a['tgt_many'],
                                            a['tgt_cond'], a['tgt_phrase']))
     for ass in assocs:
         ass.formalize()
     for u in doc['uniques']:
-        m.define_unique_identifier(u['kind'], u['name'], *u['attrs'])
+        m.define_unique_identifier(u['kind'], u['name'], *(u.get('attrs_as') or u['attrs']))
     return m
 
 
@@ -197,7 +201,7 @@ PROFILES = {
                 new_ref=1, undo=1),
     'C09': dict(new=5, relate=8, relate_overflow=0.5, unrelate=2.5, delete=1.5, setattr=3, select=9, nav=9,
                 subtype=1.5, hold=1.5, recheck=2, new_ref=1, nav_bad=0.5),
-    'C10': dict(new=3, new_kw=3, relate=3, unrelate=1, setattr=10, getattr=6, delattr=1.2, set_ref=1,
+    'C10': dict(new=3, new_kw=3, new_ref=1.5, relate=3, unrelate=1, setattr=10, getattr=6, delattr=1.2, set_ref=1,
                 select_eq=5, find_class=1.5, delete=0.5, del_unset=0.4, define_again=0.5),
     'C11': dict(new=5, relate=7, unrelate=4, delete=2, setattr_id=5, setattr=1, check=6, new_ref=1),
     'C16': dict(new_n=5, relate_n=10, unrelate_n=3, delete=1.2, sort=8, sort_partial=2, relate_overflow=1.5,
@@ -376,7 +380,7 @@ class Gen(object):
             if any(v is None for v in vals):
                 return None
             for sk, v in zip(a['src_keys'], vals):
-                op['kw'].append([sk, v])
+                op['kw'].append([spk(sk), v])       # C10/C19: any spelling of a referential keyword as well
             for name, ty in attrs:
                 if name not in refs and ty.upper() != 'UNIQUE_ID' and rng.random() < 0.3:
                     op['kw'].append([name, draw_value(rng, ty, px)])
@@ -1316,12 +1320,11 @@ class StoreEngine(Engine):
         for a in schema['assocs']:
             a['src_keys'] = [flip(n) for n in a['src_keys']]
             a['tgt_keys'] = [flip(n) for n in a['tgt_keys']]
+            a.pop('src_keys_as', None)
+            a.pop('tgt_keys_as', None)
         for u in schema['uniques']:
             u['attrs'] = [flip(n) for n in u['attrs']]
-        # referential keywords must be spelled as declared to be defined behaviour
-        for op in sh['ops']:
-            if op.get('op') == 'new' and op.get('ref'):
-                op['kw'] = [[flip(k), v] for k, v in op['kw']]
+            u.pop('attrs_as', None)
         return sh
 
     def reach_missing(self, prop, tier, probes, faults):
